@@ -13,9 +13,23 @@ Space (the vote is per reference position, so it factorises):
  (ii) window level: 3 adjacent positions, <= 3 fragments, every covered sub-window for R1 and R2 (hence all
       dove-tail shapes), mismatch at the first / last base of either mate, three quality relations, both
       molecule strands, soft-clip / deletion / insertion reads, dove_safe on and off, two insertion orders.
+(iii) options: every option set of OPTSETS (dove_safe, min_phred_score at the quality boundaries, only_include_refbase,
+      with_probs_and_obs, explicit defaults; skip_*_cycles_* and dove_R*_distance) on the position level (multisets up
+      to a smaller N, two insertion orders) and on the window level (every letter alone, pairs over a thinner alphabet).
+      Options whose meaning is documented / follows from the name are judged by the brute-force vote ("direct");
+      the others ("meta") only by what the property states for ANY argument set: the molecule consensus is the
+      strict-majority vote over the calls of its fragments, a fragment's calls being the consensus of the one-fragment
+      molecule under the same arguments; order independence.
+(iv)  histories: a consensus request with every option set after EVERY add_fragment, the requests of one stage
+      ordered so that every ordered pair of option sets is adjacent once (memoised answers must not leak between
+      argument sets or survive a later fragment); the public wrappers get_consensus_base,
+      get_consensus_base_frequencies, get_consensus_gc_ratio; 12-fragment molecules (doubled 6-multisets).
+(v)   pick_best_base_call itself on every word of <= 3 calls (None = mate absent), 2- and 3-tuples.
 Oracle: brute-force vote written from the property statement, on this module's own CIGAR walk.
 """
+import collections
 import itertools
+import json
 
 from mc.bind import HarnessError
 from gen import c13_reads as G
@@ -24,14 +38,25 @@ ID = 'C13'
 DESIGN_REF = 'DESIGN.md section 3, C13'
 RULE = ('position level: every ordered word of <= N fragments over the K contribution kinds at a probed position '
         '(= all multisets x all distinct insertion orders), plus doubled molecules per multiset; window level: all '
-        'multisets of <= 3 fragment letters over 3 adjacent positions x strand x dove_safe x 2 insertion orders. '
+        'multisets of <= 3 fragment letters over 3 adjacent positions x strand x dove_safe x 2 insertion orders; '
+        'option level: every option set x (position multisets up to a smaller N | every window letter | pairs over a '
+        'thin window alphabet); history level: every option set requested after every add_fragment, every ordered pair '
+        'of option sets adjacent; pick_best_base_call on all words of <= 3 calls. '
         'states = distinct (word | window case); a case is non-trivial when at some position at least two '
         'different bases receive a vote or a fragment has disagreeing mates')
 ASSUMPTIONS = [
     'every fragment has an R1 (fragments without R1 are skipped by get_consensus; not generated)',
     'a single-end fragment is Fragment([R1, None]) as the package iterators build it; the Fragment([R1]) form of the '
     'class docstring is explored as a separate small family (call-site class single-read-list)',
-    'bases are from ACGTN; all fragments of a molecule map to one contig and share the R1 strand',
+    'bases are from ACGTN, plus one IUPAC ambiguity letter (R): what a fragment contributes AT a position where one of '
+    'its reads shows an ambiguity code is left open (not judged); its A/C/G/T calls at all other positions count',
+    'all fragments of a molecule map to one contig and share the R1 strand',
+    'min_phred_score=q: read bases with a phred score below q are not calls; only_include_refbase=b (docstring of '
+    'Fragment.get_consensus): only positions whose reference base is b are reported; with_probs_and_obs=True: a 3-tuple '
+    'whose first element is the consensus dictionary and whose third maps position -> votes in the order A,C,G,T(,N) '
+    '(only the A,C,G,T entries are judged); allow_N=True raises NotImplementedError (a refusal, not generated)',
+    'skip_first/last_n_cycles_R1/R2 and dove_R1/R2_distance are undocumented: their filter semantics are NOT judged, only '
+    'vote-consistency with the one-fragment molecules under the same arguments, order- and history-independence',
     'N is not a base call: a fragment whose (higher-quality) call is N casts no vote',
     'dove_safe=True (docstring: only bases within the R1 / R2 start and end coordinates): a fragment votes only '
     'on positions between the start of the forward mate and the end of the reverse mate; fragments without R2 or '
@@ -84,11 +109,19 @@ def _pos_kind(kind):
         return {'r1': r('C', 0, False), 'r2': None}
     if kind == 12:  # R1 says A at phred 0, R2 says C at phred 10: the higher-quality mate (C) is the call
         return {'r1': r('A', 0, False), 'r2': r('C', Q_LO, True)}
+    if kind == 13:  # single-end C at phred 1: a call like any other
+        return {'r1': r('C', 1, False), 'r2': None}
+    if kind == 14:  # phred 2 (Illumina's read-segment indicator) against phred 1: the phred-2 mate (A) is the call
+        return {'r1': r('A', 2, False), 'r2': r('C', 1, True)}
+    if kind == 15:  # phred 41 against phred 93 (the largest storable): the phred-93 mate (C) is the call
+        return {'r1': r('A', 41, False), 'r2': r('C', 93, True)}
+    if kind == 16:  # single-end IUPAC ambiguity code at P (P itself is left open; the flanks P-1, P+1 are ordinary calls)
+        return {'r1': r('R', Q_HI, False), 'r2': None}
     raise ValueError(kind)
 
 
 POS_KIND_NAMES = ['away', 'seA', 'seC', 'seN', 'agreeA', 'A30/C10', 'A10/C30', 'A30/C30', 'N30/C10', 'N10/C30', 'seG', 'seC@q0',
-                  'A0/C10']
+                  'A0/C10', 'seC@q1', 'A2/C1', 'A41/C93', 'seR']
 
 
 # ---- window-level letters --------------------------------------------------------------------------
@@ -101,7 +134,32 @@ def _win_read(a, b, variant, q, reverse):
         seq[0] = 'T'
     elif variant == 'last':
         seq[-1] = 'T'
+    elif variant == 'firstR':            # IUPAC ambiguity code on the first base, the others are ordinary calls
+        seq[0] = 'R'
+    elif variant == 'lastR':
+        seq[-1] = 'R'
     return _rd(W0 + a, ''.join(seq), [q] * len(seq), reverse)
+
+
+CIGAR_KINDS = ('softclip', 'softclip-end', 'deletion', 'insertion', 'skip', 'eqx', 'hardclip')
+
+
+def _cigar_read(what, q, reverse):
+    if what == 'softclip':           # 1S2M at W0+1
+        return _rd(W0 + 1, 'T' + REF[W0 + 1:W0 + 3], [q] * 3, reverse, [[4, 1], [0, 2]])
+    if what == 'softclip-end':       # 2M1S at W0
+        return _rd(W0, REF[W0:W0 + 2] + 'T', [q] * 3, reverse, [[0, 2], [4, 1]])
+    if what == 'deletion':           # 1M1D1M at W0 : covers W0 and W0+2, last base mismatching
+        return _rd(W0, REF[W0] + 'T', [q] * 2, reverse, [[0, 1], [2, 1], [0, 1]])
+    if what == 'insertion':          # 1M1I1M at W0 : covers W0, W0+1
+        return _rd(W0, REF[W0] + 'T' + REF[W0 + 1], [q] * 3, reverse, [[0, 1], [1, 1], [0, 1]])
+    if what == 'skip':               # 1M1N1M at W0 : covers W0 and W0+2
+        return _rd(W0, REF[W0] + REF[W0 + 2], [q] * 2, reverse, [[0, 1], [3, 1], [0, 1]])
+    if what == 'eqx':                # 1=1X1= at W0 (extended CIGAR): covers the window, middle base mismatching
+        return _rd(W0, REF[W0] + 'T' + REF[W0 + 2], [q] * 3, reverse, [[7, 1], [8, 1], [7, 1]])
+    if what == 'hardclip':           # 1H2M1H at W0+1 : covers W0+1, W0+2, last base mismatching
+        return _rd(W0 + 1, REF[W0 + 1] + 'T', [q] * 2, reverse, [[5, 1], [0, 2], [5, 1]])
+    raise ValueError(what)
 
 
 def _win_letter(letter, strand):
@@ -111,23 +169,18 @@ def _win_letter(letter, strand):
         _, a, b, v = letter
         return {'r1': _win_read(a, b, v, Q_HI, strand), 'r2': None}
     if kind == 'c':                      # single end with a CIGAR feature
-        what = letter[1]
-        if what == 'softclip':           # 1S2M at W0+1
-            return {'r1': _rd(W0 + 1, 'T' + REF[W0 + 1:W0 + 3], [Q_HI] * 3, strand, [[4, 1], [0, 2]]), 'r2': None}
-        if what == 'softclip-end':       # 2M1S at W0
-            return {'r1': _rd(W0, REF[W0:W0 + 2] + 'T', [Q_HI] * 3, strand, [[0, 2], [4, 1]]), 'r2': None}
-        if what == 'deletion':           # 1M1D1M at W0 : covers W0 and W0+2, last base mismatching
-            return {'r1': _rd(W0, REF[W0] + 'T', [Q_HI] * 2, strand, [[0, 1], [2, 1], [0, 1]]), 'r2': None}
-        if what == 'insertion':          # 1M1I1M at W0 : covers W0, W0+1
-            return {'r1': _rd(W0, REF[W0] + 'T' + REF[W0 + 1], [Q_HI] * 3, strand, [[0, 1], [1, 1], [0, 1]]), 'r2': None}
-        if what == 'skip':               # 1M1N1M at W0 : covers W0 and W0+2
-            return {'r1': _rd(W0, REF[W0] + REF[W0 + 2], [Q_HI] * 2, strand, [[0, 1], [3, 1], [0, 1]]), 'r2': None}
-        raise ValueError(what)
+        return {'r1': _cigar_read(letter[1], Q_HI, strand), 'r2': None}
+    if kind == 'q':                      # pair, one mate with a CIGAR feature: ['q', mate, what, qrel]; the other mate
+        _, mate, what, qrel = letter     # reads the reference over the whole window
+        q1, q2 = {'gt': (Q_HI, Q_LO), 'lt': (Q_LO, Q_HI), 'eq': (Q_HI, Q_HI)}[qrel]
+        if mate == 1:
+            return {'r1': _cigar_read(what, q1, strand), 'r2': _win_read(0, 2, None, q2, not strand)}
+        return {'r1': _win_read(0, 2, None, q1, strand), 'r2': _cigar_read(what, q2, not strand)}
     if kind == 'p':                      # pair: ['p', a1, b1, a2, b2, variant, qrel]
         _, a1, b1, a2, b2, v, qrel = letter
         q1, q2 = {'gt': (Q_HI, Q_LO), 'lt': (Q_LO, Q_HI), 'eq': (Q_HI, Q_HI)}[qrel]
-        v1 = {'m': None, '1f': 'first', '1l': 'last'}.get(v)
-        v2 = {'m': None, '2f': 'first', '2l': 'last'}.get(v)
+        v1 = {'m': None, '1f': 'first', '1l': 'last', '1fR': 'firstR'}.get(v)
+        v2 = {'m': None, '2f': 'first', '2l': 'last', '2lR': 'lastR'}.get(v)
         return {'r1': _win_read(a1, b1, v1, q1, strand), 'r2': _win_read(a2, b2, v2, q2, not strand)}
     if kind == 'x':                      # pair NOT facing inwards (both mates on the molecule strand)
         return {'r1': _win_read(0, 2, None, Q_HI, strand), 'r2': _win_read(0, 2, 'first', Q_LO, strand)}
@@ -142,9 +195,17 @@ def _single_letters():
         out.append(['s', a, b, 'first'])
         if b > a:
             out.append(['s', a, b, 'last'])
-    for what in ('softclip', 'softclip-end', 'deletion', 'insertion', 'skip'):
+    for what in CIGAR_KINDS:
         out.append(['c', what])
+    for a, b in SUBWINDOWS:
+        if b > a:
+            out.append(['s', a, b, 'firstR'])
+            out.append(['s', a, b, 'lastR'])
     return out
+
+
+def _cigar_pair_letters(whats, qrels):
+    return [['q', mate, what, q] for mate in (1, 2) for what in whats for q in qrels]
 
 
 def _pair_letters(variants, qrels, windows=None):
@@ -165,34 +226,100 @@ _W3 = {((0, 2), (0, 2)), ((1, 2), (0, 1)), ((0, 1), (1, 2)), ((0, 0), (1, 2)), (
 
 def window_alphabet(level, tier):
     if level == 1:
-        return _single_letters() + _pair_letters(['m', '1f', '1l', '2f', '2l'], ['gt', 'lt', 'eq']) + [['x']]
+        return _single_letters() + _pair_letters(['m', '1f', '1l', '2f', '2l', '1fR', '2lR'], ['gt', 'lt', 'eq']) + \
+            _cigar_pair_letters(CIGAR_KINDS, ['gt', 'lt', 'eq']) + [['x']]
     if level == 2:
         if tier == 'quick':
-            return _single_letters() + _pair_letters(['1f', '2l'], ['gt', 'eq']) + [['x']]
-        return _single_letters() + _pair_letters(['m', '1f', '2l'], ['gt', 'lt', 'eq']) + [['x']]
+            return _single_letters() + _pair_letters(['1f', '2l'], ['gt', 'eq']) + \
+                _cigar_pair_letters(CIGAR_KINDS, ['gt']) + [['x']]
+        return _single_letters() + _pair_letters(['m', '1f', '2l'], ['gt', 'lt', 'eq']) + \
+            _cigar_pair_letters(CIGAR_KINDS, ['gt', 'lt', 'eq']) + [['x']]
     if level == 3:
-        singles = [['s', 0, 2, None], ['s', 0, 2, 'first'], ['s', 1, 2, 'last'], ['s', 1, 1, 'first'], ['c', 'deletion']]
+        singles = [['s', 0, 2, None], ['s', 0, 2, 'first'], ['s', 1, 2, 'last'], ['s', 1, 1, 'first'], ['c', 'deletion'],
+                   ['s', 0, 2, 'firstR']]
+        cig = [['q', 2, 'deletion', 'gt'], ['q', 1, 'softclip-end', 'gt'], ['q', 2, 'insertion', 'gt'], ['q', 1, 'softclip', 'gt']]
         if tier == 'quick':
-            return singles + _pair_letters(['1f', '2l'], ['gt', 'eq'], _W3) + [['x']]
+            return singles + _pair_letters(['1f', '2l'], ['gt', 'eq'], _W3) + cig + [['x']]
         return singles + [['s', 0, 0, None], ['s', 2, 2, 'first'], ['c', 'softclip']] + \
-            _pair_letters(['1f', '2l'], ['gt', 'lt', 'eq'], _W3) + [['x']]
+            _pair_letters(['1f', '2l'], ['gt', 'lt', 'eq'], _W3) + cig + [['x']]
     raise ValueError(level)
 
 
+# ---- option sets ---------------------------------------------------------------------------------------
+# (name, keyword arguments of Molecule.get_consensus, judged directly by the brute-force vote?)
+_DEFAULTS = {'dove_safe': False, 'only_include_refbase': None, 'allow_N': False, 'with_probs_and_obs': False,
+             'min_phred_score': None, 'skip_first_n_cycles_R1': None, 'skip_last_n_cycles_R1': None,
+             'skip_first_n_cycles_R2': None, 'skip_last_n_cycles_R2': None, 'dove_R2_distance': 0, 'dove_R1_distance': 0}
+OPTSETS = [
+    ('plain', {}, True),
+    ('dove', {'dove_safe': True}, True),
+    ('defaults', _DEFAULTS, True),
+    ('minq1', {'min_phred_score': 1}, True),
+    ('minq10', {'min_phred_score': Q_LO}, True),
+    ('minq11', {'min_phred_score': Q_LO + 1}, True),
+    ('minq30', {'min_phred_score': Q_HI}, True),
+    ('minq31', {'min_phred_score': Q_HI + 1}, True),
+    ('dove+minq11', {'dove_safe': True, 'min_phred_score': Q_LO + 1}, True),
+    ('refA', {'only_include_refbase': 'A'}, True),
+    ('refC', {'only_include_refbase': 'C'}, True),
+    ('refT', {'only_include_refbase': 'T'}, True),
+    ('dove+refC', {'dove_safe': True, 'only_include_refbase': 'C'}, True),
+    ('probs', {'with_probs_and_obs': True}, True),
+    ('dove+probs', {'dove_safe': True, 'with_probs_and_obs': True}, True),
+    ('probs+minq31', {'with_probs_and_obs': True, 'min_phred_score': Q_HI + 1}, True),
+    ('probs+refC', {'with_probs_and_obs': True, 'only_include_refbase': 'C'}, True),
+    ('skipF1=0', {'skip_first_n_cycles_R1': 0}, False),
+    ('skipF1=1', {'skip_first_n_cycles_R1': 1}, False),
+    ('skipL1=0', {'skip_last_n_cycles_R1': 0}, False),
+    ('skipL1=1', {'skip_last_n_cycles_R1': 1}, False),
+    ('skipF2=1', {'skip_first_n_cycles_R2': 1}, False),
+    ('skipL2=0', {'skip_last_n_cycles_R2': 0}, False),
+    ('skipL2=1', {'skip_last_n_cycles_R2': 1}, False),
+    ('dR1=1', {'dove_R1_distance': 1}, False),
+    ('dove+dR1=1', {'dove_safe': True, 'dove_R1_distance': 1}, False),
+    ('dove+dR2=1', {'dove_safe': True, 'dove_R2_distance': 1}, False),
+    ('dove+skipF1=1+minq11', {'dove_safe': True, 'skip_first_n_cycles_R1': 1, 'min_phred_score': Q_LO + 1}, False),
+]
+OPT = {name: (kw, direct) for name, kw, direct in OPTSETS}
+OPT_NAMES = [name for name, _, _ in OPTSETS]
+# the history level asks these after every add_fragment; every ordered pair of them is adjacent once per stage
+HIST_OPTS = ['plain', 'dove', 'minq11', 'refC', 'probs', 'skipF1=1', 'dove+dR1=1']
+
+
+def _opts_of(case):
+    """(name, kwargs, direct) of a case; cases of the first two levels carry only the dove_safe flag"""
+    name = case.get('opts')
+    if name is None:
+        name = 'dove' if case.get('dove_safe') else 'plain'
+    kw, direct = OPT[name]
+    return name, kw, direct
+
+
 # ---- the oracle: brute-force vote from the property text ---------------------------------------------
-def fragment_calls(frag, dove_safe):
-    """{position: base} - the ONE call the fragment contributes per reference position (no entry = no call)"""
+def fragment_calls(frag, opts=False):
+    """({position: (base, phred)}, open positions) - the ONE call the fragment contributes per reference position (no
+    entry = no call).  `opts`: the keyword arguments of the request (a bare bool = dove_safe).  Open positions: one
+    of the reads shows a base outside ACGTN there; what the fragment contributes at such a position is not judged."""
+    if not isinstance(opts, dict):
+        opts = {'dove_safe': bool(opts)}
+    dove_safe = bool(opts.get('dove_safe'))
+    minq = opts.get('min_phred_score')
+    refbase = opts.get('only_include_refbase')
     r1, r2 = frag['r1'], frag.get('r2')
+    open_pos = set()
+    for rd in (r1, r2):
+        if rd is not None:
+            open_pos.update(pos for q, pos in G.aligned_pairs(rd) if rd['seq'][q] not in 'ACGTN')
     lo = hi = None
     if dove_safe:
         if r2 is None:
-            return {}
+            return {}, open_pos
         if r1['reverse'] and not r2['reverse']:
             lo, hi = r2['start'], G.reference_end(r1) - 1
         elif not r1['reverse'] and r2['reverse']:
             lo, hi = r1['start'], G.reference_end(r2) - 1
         else:
-            return {}
+            return {}, open_pos
     per_read = []
     for rd in (r1, r2):
         d = {}
@@ -200,30 +327,35 @@ def fragment_calls(frag, dove_safe):
             for q, pos in G.aligned_pairs(rd):
                 if lo is not None and not (lo <= pos <= hi):
                     continue
+                if minq is not None and rd['quals'][q] < minq:
+                    continue
+                if refbase is not None and REF[pos].upper() != refbase:
+                    continue
                 d[pos] = (rd['seq'][q], rd['quals'][q])
         per_read.append(d)
     calls = {}
     for pos in set(per_read[0]) | set(per_read[1]):
         c1, c2 = per_read[0].get(pos), per_read[1].get(pos)
         if c1 is None or c2 is None:
-            base = (c1 or c2)[0]
+            call = c1 or c2
         elif c1[1] > c2[1]:
-            base = c1[0]
+            call = c1
         elif c2[1] > c1[1]:
-            base = c2[0]
+            call = c2
         elif c1[0] == c2[0]:
-            base = c1[0]
+            call = c1
         else:
-            base = None                     # mates disagree at equal quality: undecidable
-        if base is not None and base != 'N':
-            calls[pos] = base
-    return calls
+            call = None                     # mates disagree at equal quality: undecidable
+        if call is not None and call[0] in 'ACGT':
+            calls[pos] = call
+    return calls, open_pos
 
 
-def oracle(frags, dove_safe):
+def _tally(calls_per_fragment):
+    """[{pos: base}] -> (consensus {pos: base}, votes {pos: {base: n}}) : strict plurality, ties absent"""
     votes = {}
-    for f in frags:
-        for pos, base in fragment_calls(f, dove_safe).items():
+    for calls in calls_per_fragment:
+        for pos, base in calls.items():
             votes.setdefault(pos, {}).setdefault(base, 0)
             votes[pos][base] += 1
     out = {}
@@ -234,28 +366,22 @@ def oracle(frags, dove_safe):
     return out, votes
 
 
+def oracle(frags, opts=False, with_open=False):
+    per = [fragment_calls(f, opts) for f in frags]
+    out, votes = _tally([{pos: c[0] for pos, c in calls.items()} for calls, _ in per])
+    if with_open:
+        return out, votes, set().union(*[o for _, o in per]) if per else set()
+    return out, votes
+
+
 # ---- driving the real code ------------------------------------------------------------------------
-def real_consensus(frags, dove_safe, single_as_pair=True, prior_queries=False):
-    """Build a fresh Molecule by adding the fragments in the given order; return {pos: base} or raise."""
-    from singlecellmultiomics.molecule import Molecule
-    from singlecellmultiomics.fragment import Fragment
-    mol = Molecule()
-    for i, fd in enumerate(frags):
-        reads = G.build_reads(REF, fd, f'f{i}', TAGS, single_as_pair=single_as_pair)
-        frag = Fragment(reads, assignment_radius=1000, umi_hamming_distance=0)
-        if not mol.add_fragment(frag):
-            raise HarnessError(f'fragment {i} was not accepted into the molecule: {fd}')
-    if len(mol) != len(frags):
-        raise HarnessError('molecule size differs from the number of fragments added')
-    if prior_queries:
-        # history: the same molecule was asked before with other arguments (a filter that removes every call, and the other
-        # dove_safe setting); answers to earlier questions must not leak into this one
-        for kw in ({'min_phred_score': Q_HI + 5}, {'dove_safe': not dove_safe}, {'min_phred_score': Q_HI + 5, 'dove_safe': dove_safe}):
-            try:
-                mol.get_consensus(**kw)
-            except Exception:
-                pass
-    res = mol.get_consensus(dove_safe=True) if dove_safe else mol.get_consensus()
+class Malformed(Exception):
+    """the real code returned something that is not what the request documents"""
+
+
+def _norm(res):
+    if not isinstance(res, dict):
+        raise Malformed(f'consensus is a {type(res).__name__}, not a dictionary')
     out = {}
     for key, base in res.items():
         contig, pos = key
@@ -266,26 +392,91 @@ def real_consensus(frags, dove_safe, single_as_pair=True, prior_queries=False):
     return out
 
 
+def _query(mol, kw):
+    """one consensus request -> ({pos: base}, vote table {pos: [nA, nC, nG, nT]} | None)"""
+    res = mol.get_consensus(**kw)
+    if not kw.get('with_probs_and_obs'):
+        return _norm(res), None
+    if not (isinstance(res, tuple) and len(res) == 3):
+        raise Malformed('with_probs_and_obs=True did not return a 3-tuple')
+    cons, _phreds, table = res
+    tab = {}
+    if table is not None:
+        for key, vec in table.items():
+            contig, pos = key
+            tab[int(pos) if contig == G.CONTIG else f'{contig}:{pos}'] = [int(x) for x in list(vec)[:4]]
+    return _norm(cons), tab
+
+
+def _build(frags, single_as_pair=True, mol=None, first_index=0):
+    from singlecellmultiomics.molecule import Molecule
+    from singlecellmultiomics.fragment import Fragment
+    if mol is None:
+        mol = Molecule()
+    for i, fd in enumerate(frags, start=first_index):
+        reads = G.build_reads(REF, fd, f'f{i}', TAGS, single_as_pair=single_as_pair)
+        frag = Fragment(reads, assignment_radius=1000, umi_hamming_distance=0)
+        if not mol.add_fragment(frag):
+            raise HarnessError(f'fragment {i} was not accepted into the molecule: {fd}')
+    if len(mol) != first_index + len(frags):
+        raise HarnessError('molecule size differs from the number of fragments added')
+    return mol
+
+
+def real_consensus(frags, dove_safe, single_as_pair=True, prior_queries=False, kw=None, with_table=False):
+    """Build a fresh Molecule by adding the fragments in the given order; return {pos: base} or raise."""
+    mol = _build(frags, single_as_pair)
+    if kw is None:
+        kw = {'dove_safe': True} if dove_safe else {}
+    if prior_queries:
+        # history: the same molecule was asked before with other arguments (a filter that removes every call, and the other
+        # dove_safe setting); answers to earlier questions must not leak into this one
+        for pk in ({'min_phred_score': Q_HI + 5}, {'dove_safe': not dove_safe}, {'min_phred_score': Q_HI + 5, 'dove_safe': dove_safe}):
+            try:
+                mol.get_consensus(**pk)
+            except Exception:
+                pass
+    out, table = _query(mol, kw)
+    return (out, table) if with_table else out
+
+
 def _canon(d):
     return sorted((str(k), v) for k, v in d.items())
 
 
-def _run(frags, dove_safe, site, single_as_pair=True, prior_queries=False):
+def _run(frags, dove_safe, site, single_as_pair=True, prior_queries=False, kw=None):
     """-> (result dict | None, [(signature, detail)])"""
     try:
-        return real_consensus(frags, dove_safe, single_as_pair, prior_queries), []
+        return real_consensus(frags, dove_safe, single_as_pair, prior_queries, kw), []
     except HarnessError:
         raise
+    except Malformed as ex:
+        return None, [(f'{site}:malformed-result', str(ex))]
     except Exception as ex:
         return None, [(f'{site}:exception:{type(ex).__name__}', repr(ex))]
 
 
-def _compare(got, want, votes, site):
+def _run_table(frags, site, kw, single_as_pair=True):
+    """like _run for one option set, also returning the vote table of a with_probs_and_obs request"""
+    try:
+        got, table = real_consensus(frags, False, single_as_pair, False, kw, with_table=True)
+        return got, table, []
+    except HarnessError:
+        raise
+    except Malformed as ex:
+        return None, None, [(f'{site}:malformed-result', str(ex))]
+    except Exception as ex:
+        return None, None, [(f'{site}:exception:{type(ex).__name__}', repr(ex))]
+
+
+def _compare(got, want, votes, site, open_pos=()):
     """clauses of the property for one evaluation"""
     out = []
     if got == want:
         return out
     for pos in sorted(set(got) | set(want), key=str):
+        if pos in open_pos:
+            continue
         g, w = got.get(pos), want.get(pos)
         if g == w:
             continue
@@ -308,6 +499,35 @@ def _compare(got, want, votes, site):
     return [(s, d) for s, d in out if not (s in seen or seen.add(s))]
 
 
+def _compare_table(table, votes, site, open_pos=()):
+    """with_probs_and_obs: the third element maps position -> votes per base (A,C,G,T)"""
+    if table is None:
+        table = {}
+    for pos in sorted(set(table) | set(votes), key=str):
+        if pos in open_pos:
+            continue
+        want = [votes.get(pos, {}).get(b, 0) for b in 'ACGT']
+        got = table.get(pos, [0, 0, 0, 0])
+        if got != want:
+            return [(f'{site}:vote-table-differs-from-the-fragment-calls', {'position': pos, 'table': got, 'votes': want})]
+    return []
+
+
+# one-fragment molecules under an option set: what the fragment calls under these arguments, by the property itself
+_SINGLE_CACHE = {}
+
+
+def _single_calls(fd, optname, single_as_pair=True):
+    key = (json.dumps(fd, sort_keys=True), optname, single_as_pair)
+    hit = _SINGLE_CACHE.get(key)
+    if hit is None:
+        kw = {k: v for k, v in OPT[optname][0].items() if k != 'with_probs_and_obs'}
+        hit = real_consensus([fd], False, single_as_pair, False, kw)
+        if len(_SINGLE_CACHE) < 200000:
+            _SINGLE_CACHE[key] = hit
+    return hit
+
+
 def _doubled(frags, how):
     if how == 'append':
         return list(frags) + list(frags)
@@ -322,38 +542,71 @@ def _frags_of(case):
 
 def check_case(case, base_result=None):
     """All clauses for one case. -> (violations, info)"""
-    site = 'get_consensus' + ('[dove_safe]' if case.get('dove_safe') else '') + ':' + case['level']
+    if case['level'] == 'pick':
+        return _check_pick(case)
+    if case.get('history'):
+        return _check_history(case)
+    optname, kw, direct = _opts_of(case)
+    if 'opts' in case:
+        site = f'get_consensus[{optname}]:' + case['level']
+    else:
+        site = 'get_consensus' + ('[dove_safe]' if case.get('dove_safe') else '') + ':' + case['level']
     sap = not case.get('single_read_list')
     if not sap:
         # the one-element read list of the Fragment docstring, Fragment([read]); own call-site class
         site += ':single-read-list'
-    dove = bool(case.get('dove_safe'))
+    dove = bool(kw.get('dove_safe'))
     frags = _frags_of(case)
-    want, votes = oracle(frags, dove)
     viols = []
     execs = 0
+    if direct:
+        want, votes, open_pos = oracle(frags, kw, with_open=True)
+    else:
+        # undocumented filter arguments: the vote is taken over what the one-fragment molecules report under them
+        try:
+            singles = [_single_calls(f, optname, sap) for f in frags]
+        except HarnessError:
+            raise
+        except Exception as ex:
+            return [(f'{site}:one-fragment-molecule:exception:{type(ex).__name__}', repr(ex))], \
+                {'got': None, 'want': {}, 'votes': {}, 'execs': 1, 'nontrivial': False}
+        want, votes = _tally(singles)
+        open_pos = oracle(frags, kw, with_open=True)[2]
     if case.get('double'):
         # the doubled molecule must give what the plain one gives (and what the vote says)
-        got, v = _run(_doubled(frags, case['double']), dove, site + ':doubled', sap)
+        got, v = _run(_doubled(frags, case['double']), dove, site + ':doubled', sap, kw=kw if 'opts' in case else None)
         execs += 1
         viols += v
         if got is not None:
-            if base_result is None:
+            if base_result is None and not case.get('no_plain'):
                 base_result, v0 = _run(frags, dove, site, sap)
                 execs += 1
                 viols += v0
             if base_result is not None and got != base_result:
                 viols.append((f'{site}:doubling-changes-consensus', {'plain': _canon(base_result), 'doubled': _canon(got)}))
-            viols += _compare(got, want, {p: {b: 2 * n for b, n in v_.items()} for p, v_ in votes.items()}, site + ':doubled')
+            viols += _compare(got, want, {p: {b: 2 * n for b, n in v_.items()} for p, v_ in votes.items()}, site + ':doubled',
+                              open_pos)
+    elif case.get('wrappers'):
+        got = None
+        if not open_pos:            # the wrappers report whole-consensus summaries: judged only when nothing is left open
+            got, v, n = _run_wrappers(frags, want, site, sap)
+            execs += n
+            viols += v
     else:
         pq = bool(case.get('prior_queries'))
         if pq:
             site += ':after-other-queries'
-        got, v = _run(frags, dove, site, sap, prior_queries=pq)
+        if 'opts' in case:
+            got, table, v = _run_table(frags, site, kw, sap)
+        else:
+            got, v = _run(frags, dove, site, sap, prior_queries=pq)
+            table = None
         execs += 1
         viols += v
         if got is not None:
-            viols += _compare(got, want, votes, site)
+            viols += _compare(got, want, votes, site, open_pos)
+            if kw.get('with_probs_and_obs'):
+                viols += _compare_table(table, votes, site, open_pos)
             if base_result is not None and got != base_result:
                 viols.append((f'{site}:order-dependent', {'this_order': _canon(got), 'other_order': _canon(base_result)}))
     nontrivial = any(len(v_) >= 2 for v_ in votes.values()) or any(
@@ -362,6 +615,170 @@ def check_case(case, base_result=None):
     seen = set()
     viols = [(s, d) for s, d in viols if not (s in seen or seen.add(s))]
     return viols, info
+
+
+def _run_wrappers(frags, want, site, sap):
+    """public wrappers that answer from the consensus: get_consensus_base (docstring: the base call at one position, None
+    when no base call could be made), get_consensus_base_frequencies (frequency of bases in the consensus sequence),
+    get_consensus_gc_ratio (GC ratio of the consensus sequence; asked only when the consensus is not empty)"""
+    viols = []
+    n = 0
+    mol = _build(frags, sap)
+    got = {}
+    for contig, positions in ((G.CONTIG, sorted(set(want) | {P - 1, P, P + 1})), ('chr2', [P])):
+        for pos in positions:
+            try:
+                b = mol.get_consensus_base(contig, pos)
+                n += 1
+            except Exception as ex:
+                viols.append((f'get_consensus_base:{site}:exception:{type(ex).__name__}', repr(ex)))
+                break
+            w = want.get(pos) if contig == G.CONTIG else None
+            if contig == G.CONTIG and b is not None:
+                got[pos] = b
+            if b != w:
+                viols.append((f'get_consensus_base:{site}:' + ('other-contig-answered' if contig != G.CONTIG else
+                                                             'differs-from-majority-call'),
+                              {'contig': contig, 'position': pos, 'got': b, 'expected': w}))
+                break
+    try:
+        freq = mol.get_consensus_base_frequencies()
+        n += 1
+        wf = dict(collections.Counter(want.values()))
+        if {k: v for k, v in dict(freq).items() if v} != wf:
+            viols.append((f'get_consensus_base_frequencies:{site}:differs-from-consensus', {'got': dict(freq), 'expected': wf}))
+    except Exception as ex:
+        viols.append((f'get_consensus_base_frequencies:{site}:exception:{type(ex).__name__}', repr(ex)))
+    if want:
+        try:
+            gc = mol.get_consensus_gc_ratio()
+            n += 1
+            wgc = sum(1 for b in want.values() if b in 'GC') / len(want)
+            if abs(gc - wgc) > 1e-9:
+                viols.append((f'get_consensus_gc_ratio:{site}:differs-from-consensus', {'got': gc, 'expected': wgc}))
+        except Exception as ex:
+            viols.append((f'get_consensus_gc_ratio:{site}:exception:{type(ex).__name__}', repr(ex)))
+    return got, viols, n
+
+
+# ---- histories: a request with every option set after every add_fragment -------------------------------------
+def _pair_cover(k):
+    """a sequence over range(k) in which every ordered pair (a, b), a == b included, is adjacent exactly once
+    (de Bruijn sequence of order 2, closed)"""
+    a = [0] * (k * 2)
+    seq = []
+
+    def db(t, p):
+        if t > 2:
+            if 2 % p == 0:
+                seq.extend(a[1:p + 1])
+        else:
+            a[t] = a[t - p]
+            db(t + 1, p)
+            for j in range(a[t - p] + 1, k):
+                a[t] = j
+                db(t + 1, t)
+    db(1, 1)
+    return seq + seq[:1]
+
+
+_FRESH_CACHE = {}
+
+
+def _fresh(word, optname):
+    """the answer of a molecule that was only built and asked this one question"""
+    key = (tuple(word), optname)
+    hit = _FRESH_CACHE.get(key)
+    if hit is None:
+        hit = real_consensus([_pos_kind(k) for k in word], False, True, False, OPT[optname][0])
+        if len(_FRESH_CACHE) < 200000:
+            _FRESH_CACHE[key] = hit
+    return hit
+
+
+def _check_history(case):
+    word = case['word']
+    frags = [_pos_kind(k) for k in word]
+    order = [HIST_OPTS[i] for i in _pair_cover(len(HIST_OPTS))]
+    viols = []
+    execs = 0
+    mol = None
+    got = None
+    for stage in range(1, len(frags) + 1):
+        mol = _build(frags[stage - 1:stage], True, mol, first_index=stage - 1)
+        prefix = frags[:stage]
+        for optname in order:
+            kw, direct = OPT[optname]
+            site = f'get_consensus[{optname}]:pos:after-every-add'
+            try:
+                got, table = _query(mol, kw)
+                execs += 1
+            except Malformed as ex:
+                viols.append((f'{site}:malformed-result', str(ex)))
+                continue
+            except Exception as ex:
+                viols.append((f'{site}:exception:{type(ex).__name__}', repr(ex)))
+                continue
+            if direct:
+                want, votes, open_pos = oracle(prefix, kw, with_open=True)
+                viols += _compare(got, want, votes, site, open_pos)
+                if kw.get('with_probs_and_obs'):
+                    viols += _compare_table(table, votes, site, open_pos)
+            else:
+                try:
+                    fresh = _fresh(word[:stage], optname)
+                except HarnessError:
+                    raise
+                except Exception:
+                    continue
+                if got != fresh:
+                    viols.append((f'{site}:differs-from-a-fresh-molecule', {'stage': stage, 'got': _canon(got), 'fresh': _canon(fresh)}))
+    want, votes = oracle(frags, {})
+    # the wrappers answer after the whole history, too
+    try:
+        b = mol.get_consensus_base(G.CONTIG, P)
+        execs += 1
+        if b != want.get(P):
+            viols.append(('get_consensus_base:pos:after-every-add:differs-from-majority-call', {'got': b, 'expected': want.get(P)}))
+    except Exception as ex:
+        viols.append((f'get_consensus_base:pos:after-every-add:exception:{type(ex).__name__}', repr(ex)))
+    nontrivial = any(len(v_) >= 2 for v_ in votes.values()) or any(_mates_disagree(f) for f in frags)
+    seen = set()
+    viols = [(s, d) for s, d in viols if not (s in seen or seen.add(s))]
+    return viols, {'got': got, 'want': want, 'votes': votes, 'execs': execs, 'nontrivial': nontrivial}
+
+
+# ---- pick_best_base_call on its own -------------------------------------------------------------------------
+PICK_CALLS = [None, ['A', 0], ['C', 0], ['A', Q_LO], ['C', Q_LO], ['A', Q_HI], ['C', Q_HI], ['G', Q_HI], ['N', Q_HI], ['N', Q_LO]]
+
+
+def _check_pick(case):
+    """docstring: the best call of a list of calls, ('N', 0) when there is a tie; a mate that does not cover the position
+    is None.  Judged: the base (and phred score) of the unique highest-quality call; 'N' when calls of different bases
+    share the highest quality or there is no call."""
+    from singlecellmultiomics.utils.sequtils import pick_best_base_call
+    site = 'pick_best_base_call:' + ('2-tuples' if case['shape'] == 2 else '3-tuples')
+    calls = [None if c is None else (tuple(c) if case['shape'] == 2 else (c[0], c[1], 'A')) for c in
+             (PICK_CALLS[i] for i in case['word'])]
+    present = [c for c in calls if c is not None]
+    if present:
+        top = max(c[1] for c in present)
+        bases = {c[0] for c in present if c[1] == top}
+        want = (bases.pop(), top) if len(bases) == 1 else ('N', None)
+    else:
+        want = ('N', None)
+    viols = []
+    try:
+        got = pick_best_base_call(*calls)
+        if got is None or got[0] != want[0] or (want[0] != 'N' and got[1] != want[1]):
+            clause = 'tie-or-no-call-not-N' if want[0] == 'N' else 'not-the-highest-quality-call'
+            viols.append((f'{site}:{clause}', {'calls': case['word'], 'got': got, 'expected': want}))
+    except Exception as ex:
+        got = None
+        viols.append((f'{site}:exception:{type(ex).__name__}', repr(ex)))
+    nontrivial = len({c[0] for c in present}) >= 2
+    return viols, {'got': got, 'want': want, 'votes': {}, 'execs': 1, 'nontrivial': nontrivial,
+                   'outcome': 'pick:' + ('no-call' if want[0] == 'N' and want[1] is None else 'call')}
 
 
 def _mates_disagree(f):
@@ -373,44 +790,72 @@ def _mates_disagree(f):
 
 
 # ---- bounds / shards ------------------------------------------------------------------------------
+N_MAIN = 8                     # kinds of the main position alphabet (all orders up to pos_max_fragments)
+N_EXTRA1 = 13                  # kinds of the first extra alphabet (the second one holds all kinds, up to a smaller N)
+
+
 def bounds(tier):
-    if tier == 'quick':
-        return {'pos_kinds': POS_KIND_NAMES[:8], 'pos_max_fragments': 5, 'pos_extra': {'kinds': POS_KIND_NAMES, 'max_fragments': 4},
-                'window_positions': 3, 'window_max_fragments': 3,
-                'window_alphabet_sizes': {str(l): len(window_alphabet(l, tier)) for l in (1, 2, 3)},
-                'strands': [False, True], 'dove_safe': [False, True], 'window_orders': ['as listed', 'reversed'],
-                'doubling': ['append', 'interleave']}
-    return {'pos_kinds': POS_KIND_NAMES[:8], 'pos_max_fragments': 7, 'pos_extra': {'kinds': POS_KIND_NAMES, 'max_fragments': 5},
+    q = tier == 'quick'
+    return {'pos_kinds': POS_KIND_NAMES[:N_MAIN], 'pos_max_fragments': 5 if q else 7,
+            'pos_extra': {'kinds': POS_KIND_NAMES[:N_EXTRA1], 'max_fragments': 4 if q else 5},
+            'pos_extra2': {'kinds': POS_KIND_NAMES, 'max_fragments': 3 if q else 4},
+            'pos_options': {'option_sets': OPT_NAMES[1:], 'judged_by_vote_oracle': [n for n, _, d in OPTSETS if d],
+                            'judged_by_one_fragment_molecules': [n for n, _, d in OPTSETS if not d],
+                            'max_fragments_main': 4 if q else 5, 'max_fragments_extra': 3 if q else 4,
+                            'orders': ['sorted', 'reversed']},
+            'pos_wrappers': ['get_consensus_base', 'get_consensus_base_frequencies', 'get_consensus_gc_ratio'],
+            'pos_doubled_only': {'kinds': POS_KIND_NAMES[:N_MAIN], 'fragments': 6, 'doubled_to': 12},
+            'history': {'kinds': POS_KIND_NAMES[:10], 'max_fragments': 3 if q else 4,
+                        'orders': ['sorted', 'reversed'] if q else 'all distinct orders up to 3 fragments, sorted and reversed for 4',
+                        'option_sets_after_every_add': HIST_OPTS, 'requests_per_stage': len(HIST_OPTS) ** 2 + 1},
+            'pick_best_base_call': {'calls': PICK_CALLS, 'max_calls': 3, 'tuple_shapes': [2, 3]},
             'window_positions': 3, 'window_max_fragments': 3,
             'window_alphabet_sizes': {str(l): len(window_alphabet(l, tier)) for l in (1, 2, 3)},
+            'window_cigar_kinds': list(CIGAR_KINDS),
+            'window_options': {'option_sets': OPT_NAMES[2:], 'level1': 'every letter of the level-1 alphabet',
+                               'level2': 'all pairs over the level-3 alphabet, 2 orders'},
             'strands': [False, True], 'dove_safe': [False, True], 'window_orders': ['as listed', 'reversed'],
-            'doubling': ['append', 'interleave']}
+            'doubling': ['append', 'interleave'], 'single_read_list': {'kinds': POS_KIND_NAMES[:4], 'max_fragments': 3,
+                                                                      'option_sets': ['plain', 'dove', 'minq31', 'probs']}}
 
 
 def _pos_multisets(tier):
-    """(multiset as sorted tuple).  Main alphabet: 8 kinds up to N; extra alphabet: all 13 kinds up to a smaller N,
-    only the multisets that use at least one of the extra kinds (so the two families do not overlap)."""
+    """(multiset as sorted tuple).  Main alphabet: 8 kinds up to N; first extra alphabet: 13 kinds up to a smaller N,
+    second extra alphabet: all kinds up to a still smaller N; of the extra alphabets only the multisets that use at
+    least one of their own kinds (so the families do not overlap)."""
     b = bounds(tier)
     out = []
     for n in range(1, b['pos_max_fragments'] + 1):
-        out.extend(itertools.combinations_with_replacement(range(8), n))
+        out.extend(itertools.combinations_with_replacement(range(N_MAIN), n))
     for n in range(1, b['pos_extra']['max_fragments'] + 1):
+        for ms in itertools.combinations_with_replacement(range(N_EXTRA1), n):
+            if max(ms) >= N_MAIN:
+                out.append(ms)
+    for n in range(1, b['pos_extra2']['max_fragments'] + 1):
         for ms in itertools.combinations_with_replacement(range(len(POS_KIND_NAMES)), n):
-            if max(ms) >= 8:
+            if max(ms) >= N_EXTRA1:
                 out.append(ms)
     return out
 
 
 N_POS_SHARDS = 48
 N_WIN_SHARDS = 16
+N_DBL_SHARDS = 8
+N_HIST_SHARDS = 16
+N_WOPT_SHARDS = 16
 
 
 def shards(tier):
     out = [('pos', i) for i in range(N_POS_SHARDS)]
     out.append(('list1',))
+    out.append(('pick',))
     for level in (1, 2, 3):
         for i in range(N_WIN_SHARDS):
             out.append(('win', level, i))
+    out += [('dbl', i) for i in range(N_DBL_SHARDS)]
+    out += [('hist', i) for i in range(N_HIST_SHARDS)]
+    for level in (1, 2):
+        out += [('wopt', level, i) for i in range(N_WOPT_SHARDS)]
     return out
 
 
@@ -430,12 +875,74 @@ def run_shard(shard, tier, acc):
                 case = {'level': 'pos', 'word': list(word), 'single_read_list': True}
                 viols, info = check_case(case)
                 _report(acc, case, viols, info)
+                for optname in ('dove', 'minq31', 'probs'):
+                    case = {'level': 'pos', 'word': list(word), 'single_read_list': True, 'opts': optname}
+                    viols, info = check_case(case)
+                    _report(acc, case, viols, info)
+        return
+    if shard[0] == 'pick':
+        for shape in (2, 3):
+            for n in (0, 1, 2, 3):
+                for word in itertools.product(range(len(PICK_CALLS)), repeat=n):
+                    case = {'level': 'pick', 'word': list(word), 'shape': shape}
+                    viols, info = check_case(case)
+                    _report(acc, case, viols, info)
         return
     if shard[0] == 'pos':
         # heavy multisets first in the list would unbalance: deal round-robin
         mss = _pos_multisets(tier)
+        b = bounds(tier)['pos_options']
         for idx in range(shard[1], len(mss), N_POS_SHARDS):
-            _run_pos_multiset(mss[idx], acc)
+            ms = mss[idx]
+            _run_pos_multiset(ms, acc)
+            if len(ms) <= (b['max_fragments_main'] if max(ms) < N_MAIN else b['max_fragments_extra']):
+                _run_pos_options(ms, acc)
+    elif shard[0] == 'dbl':
+        # molecules of 12 fragments (the bound of the quantifier): every 6-multiset of the main kinds, doubled both ways
+        mss = list(itertools.combinations_with_replacement(range(N_MAIN), 6))
+        for idx in range(shard[1], len(mss), N_DBL_SHARDS):
+            ms = mss[idx]
+            case = {'level': 'pos', 'word': list(ms)}
+            viols, info = check_case(case)
+            _report(acc, case, viols, info, states=0)
+            for how in ('append', 'interleave'):
+                case = {'level': 'pos', 'word': list(ms), 'double': how}
+                viols, info2 = check_case(case, base_result=info['got'])
+                _report(acc, case, viols, info2)
+    elif shard[0] == 'hist':
+        b = bounds(tier)['history']
+        mss = []
+        for n in range(1, b['max_fragments'] + 1):
+            mss.extend(itertools.combinations_with_replacement(range(len(b['kinds'])), n))
+        for idx in range(shard[1], len(mss), N_HIST_SHARDS):
+            ms = mss[idx]
+            words = [ms, ms[::-1]] if tier == 'quick' or len(ms) > 3 else list(_distinct_permutations(ms))
+            for wi, word in enumerate(words):
+                if wi and word == words[0]:
+                    continue
+                case = {'level': 'pos', 'word': list(word), 'history': 'every-option-set-after-every-add'}
+                viols, info = check_case(case)
+                _report(acc, case, viols, info)
+    elif shard[0] == 'wopt':
+        _, level, part = shard
+        alpha = window_alphabet(1 if level == 1 else 3, tier)
+        combos = itertools.combinations_with_replacement(range(len(alpha)), level)
+        for idx, combo in enumerate(combos):
+            if idx % N_WOPT_SHARDS != part:
+                continue
+            letters = [alpha[i] for i in combo]
+            for strand in (False, True):
+                for optname in OPT_NAMES[2:]:
+                    base = None
+                    orders = [letters] if level == 1 else [letters, letters[::-1]]
+                    for oi, order in enumerate(orders):
+                        if oi and order == letters:
+                            continue
+                        case = {'level': 'win', 'letters': order, 'strand': strand, 'opts': optname}
+                        viols, info = check_case(case, base_result=base)
+                        if base is None:
+                            base = info['got']
+                        _report(acc, case, viols, info)
     else:
         _, level, part = shard
         alpha = window_alphabet(level, tier)
@@ -456,6 +963,10 @@ def run_shard(shard, tier, acc):
                         if base is None:
                             base = info['got']
                         _report(acc, case, viols, info)
+                if level == 1 and not strand:
+                    case = {'level': 'win', 'letters': letters, 'strand': strand, 'dove_safe': False, 'wrappers': True}
+                    viols, info = check_case(case)
+                    _report(acc, case, viols, info, states=0)
 
 
 def _run_pos_multiset(ms, acc):
@@ -475,8 +986,27 @@ def _run_pos_multiset(ms, acc):
     _report(acc, case, viols, info, states=0)
 
 
+def _run_pos_options(ms, acc):
+    """every option set (but the bare call, explored in every order above) on the multiset, two insertion orders"""
+    case = {'level': 'pos', 'word': list(ms), 'wrappers': True}
+    viols, info = check_case(case)
+    _report(acc, case, viols, info, states=0)
+    for optname in OPT_NAMES[1:]:
+        base = None
+        for oi, word in enumerate((ms, ms[::-1])):
+            if oi and word == ms:
+                continue
+            case = {'level': 'pos', 'word': list(word), 'opts': optname}
+            viols, info = check_case(case, base_result=base)
+            if base is None:
+                base = info['got']
+            _report(acc, case, viols, info)
+
+
 def _report(acc, case, viols, info, states=1):
-    if case['level'] == 'pos':
+    if 'outcome' in info:
+        outcome = info['outcome']
+    elif case['level'] == 'pos':
         v = info['votes'].get(P, {})
         w = info['want'].get(P)
         if w is not None:
@@ -487,25 +1017,64 @@ def _report(acc, case, viols, info, states=1):
             outcome = 'pos:absent-tie'
         if case.get('double'):
             outcome += ':doubled'
+        if case.get('history'):
+            outcome += ':history'
+        elif case.get('wrappers'):
+            outcome += ':wrappers'
+        elif 'opts' in case:
+            outcome = f"opt:{case['opts']}:" + outcome
     else:
         n_present = len(info['want'])
         n_voted = len(info['votes'])
-        outcome = f"win:{'dove' if case['dove_safe'] else 'plain'}:present={n_present}/voted={n_voted}"
+        if case.get('wrappers'):
+            outcome = f'win:wrappers:present={n_present}/voted={n_voted}'
+        elif 'opts' in case:
+            outcome = f"opt:{case['opts']}:win:present={n_present}/voted={n_voted}"
+        else:
+            outcome = f"win:{'dove' if case['dove_safe'] else 'plain'}:present={n_present}/voted={n_voted}"
     acc.case(case, transitions=info['execs'], execs=info['execs'], nontrivial=info['nontrivial'] and states > 0,
              outcome=outcome, states=states)
+    # which of the dimensions a case exercises (the outcome histogram of the evidence file only keeps the most frequent labels)
+    if case['level'] == 'pick':
+        acc.count('cases:pick_best_base_call')
+    else:
+        if case.get('history'):
+            acc.count('cases:history(every option set after every add)')
+            acc.count('requests:history', info['execs'])
+        elif case.get('wrappers'):
+            acc.count('cases:wrappers')
+        elif 'opts' in case:
+            acc.count('cases:option-set:' + case['opts'])
+        if case.get('double') and len(case['word']) == 6:
+            acc.count('cases:12-fragment molecule')
+        if case['level'] == 'pos':
+            for k in set(case['word']):
+                if k >= N_EXTRA1:
+                    acc.count('cases:kind:' + POS_KIND_NAMES[k])
+        else:
+            flat = json.dumps(case['letters'])
+            if 'R"' in flat:
+                acc.count('cases:window letter with an ambiguity code')
+            if '"q"' in flat:
+                acc.count('cases:window pair with a CIGAR feature in one mate')
+            for what in ('eqx', 'hardclip'):
+                if what in flat:
+                    acc.count('cases:window read with ' + what)
     for sig, d in viols:
         acc.violation(sig, case, d)
 
 
 def replay(case):
     base = None
-    if not case.get('double'):
+    if case['level'] != 'pick' and not case.get('double') and not case.get('history') and not case.get('wrappers'):
         # order clause: compare against the canonical (sorted) insertion order of the same fragments
         if case['level'] == 'pos':
             other = dict(case, word=sorted(case['word']))
         else:
             other = dict(case, letters=case['letters'][::-1])
         if other != case:
-            base, _ = _run(_frags_of(other), bool(case.get('dove_safe')), 'x', not case.get('single_read_list'))
+            _, kw, _ = _opts_of(case)
+            base, _ = _run(_frags_of(other), bool(kw.get('dove_safe')), 'x', not case.get('single_read_list'),
+                           kw=kw if 'opts' in case else None)
     viols, _ = check_case(case, base_result=base)
     return viols
